@@ -58,8 +58,10 @@ var lgTable = []lgEntry{
 	{Rule: "L3", Func: "tensor.(StdEng).Reduce", Site: "$r.E.ReduceDefault(", Goal: "!%at.DataOrder().IsColMajor()", Props: []string{"C08", "C16"}, Why: "the middle-axis kernel assumes row-major storage"},
 	{Rule: "L3", Func: "tensor.(StdEng).Reduce", Site: "$r.E.ReduceFirst(", Goal: "!%at.DataOrder().IsColMajor()", Props: []string{"C08", "C16"}, Why: "the first-axis kernel assumes row-major storage"},
 	{Rule: "L3", Func: "tensor.(StdEng).Reduce", Site: "$r.E.ReduceLast(", Goal: "!%at.DataOrder().IsColMajor()", Props: []string{"C08", "C16"}, Why: "the last-axis kernel assumes row-major storage"},
-	{Rule: "L1", Func: "tensor.(StdEng).argmaxDenseTensor", Site: "$r.E.ArgmaxFlat(", Decides: []string{"$t.RequiresIterator()"}, Props: []string{"C08"}, Why: "the flat arg-reduction scans raw storage"},
-	{Rule: "L1", Func: "tensor.(StdEng).argminDenseTensor", Site: "$r.E.ArgminFlat(", Decides: []string{"$t.RequiresIterator()"}, Props: []string{"C08"}, Why: "the flat arg-reduction scans raw storage"},
+	{Rule: "L1", Func: "tensor.(StdEng).argmaxDenseTensor", Site: "$r.E.ArgmaxFlat(", Goal: "!(%ok && %d.IsMaterializable())", OrStep: ".Materialize()", Props: []string{"C08"}, Why: "the flat arg-reduction scans raw storage: views and lazily transposed tensors are materialised first"},
+	{Rule: "L1", Func: "tensor.(StdEng).argminDenseTensor", Site: "$r.E.ArgminFlat(", Goal: "!(%ok && %d.IsMaterializable())", OrStep: ".Materialize()", Props: []string{"C08"}, Why: "the flat arg-reduction scans raw storage: views and lazily transposed tensors are materialised first"},
+	{Rule: "L3", Func: "tensor.(StdEng).argmaxDenseTensor", Site: "$r.E.ArgmaxFlat(", Goal: "!($t.DataOrder().IsColMajor() && !$t.IsVector())", Props: []string{"C08", "C16"}, Why: "the flat index is a row-major index"},
+	{Rule: "L3", Func: "tensor.(StdEng).argminDenseTensor", Site: "$r.E.ArgminFlat(", Goal: "!($t.DataOrder().IsColMajor() && !$t.IsVector())", Props: []string{"C08", "C16"}, Why: "the flat index is a row-major index"},
 	// ---- BLAS gateways (C09, C16) ----------------------------------------------------------------
 	{Rule: "LB", Func: "tensor.(StdEng).MatMul", Site: "whichblas.", Decides: []string{"%ad.oldAP().IsZero()", "%bd.oldAP().IsZero()", "$a.DataOrder().IsColMajor()", "$b.DataOrder().IsColMajor()", "$prealloc.DataOrder().IsColMajor()"}, Props: []string{"C09", "C16"}, Why: "each trans flag and leading dimension must come from that operand's own lazy-transpose state and data order"},
 	{Rule: "LB", Func: "tensor.(StdEng).MatVecMul", Site: "whichblas.", Decides: []string{"%ad.oldAP().IsZero()", "$a.DataOrder().IsColMajor()"}, Props: []string{"C09", "C16"}, Why: "the trans flag must come from the matrix' lazy-transpose state and data order"},
